@@ -50,6 +50,14 @@ F2c == { Case("F2", <<Rule("start", Alt(Cat(C, Un(o1, s)), Cat(Cat(B, NT("y")), 
        \cup { Case("F2", <<Rule("start", Alt(Cat(C, Un(o1, s)), Cat(Cat(B, Un(o2, s)), C))), XRule>>) :
            o1 \in UnaryOps, o2 \in UnaryOps, s \in NoX }
 
+\* three operator applications over two multi-symbol bodies, in every arrangement (a name or a counter that is taken
+\* from the wrong place gives two different sub-expressions the same generated non-terminal):  start = o1(s1) o2(s2) o3(s3)
+PQ == { Cat(A, B), Cat(C, A) }
+F2d == { Case("F2", <<Rule("start", Cat(Cat(Un(o[1], s[1]), Un(o[2], s[2])), Un(o[3], s[3]))), XRule>>) :
+           o \in [1..3 -> UnaryOps], s \in [1..3 -> PQ] }
+       \cup { Case("F2", <<Rule("start", Cat(Cat(NT("h"), B), NT("y"))), Rule("h", Cat(Un(o[1], s[1]), Un(o[2], s[2]))), Rule("y", Un(o[3], s[3])), XRule>>) :
+           o \in [1..3 -> UnaryOps], s \in [1..3 -> PQ] }
+
 Suffix(op) == CASE op = "grp" -> "group" [] op = "opt" -> "opt" [] op = "star" -> "star" [] op = "plus" -> "plus"
 F3 == UNION { {
         \* a string terminal with a spelled-out name and a rule of that name under the same operator
@@ -85,7 +93,7 @@ D6 == << Tok("AA", "str", "x"), Tok("BB", "pat", "[0-9]+"), Tok("CC", "pre", "$I
 Orders6 == { <<1, 2, 3, 4, 5, 6, 7>>, <<7, 6, 5, 4, 3, 2, 1>>, <<4, 1, 5, 2, 6, 3, 7>>, <<5, 6, 4, 7, 1, 2, 3>>, <<4>>, <<1>>, <<5>>, <<6, 1>> }
 F6 == { Case("F6", <<>>) } \cup { Case("F6", [j \in 1..Len(o) |-> D6[o[j]]]) : o \in Orders6 }
 
-All == F1 \cup F2 \cup F2b \cup F2c \cup F3 \cup F4 \cup F6
+All == F1 \cup F2 \cup F2b \cup F2c \cup F2d \cup F3 \cup F4 \cup F6
 ASSUME /\ ndJsonSerialize("gen_specs.ndjson", SetToSeq(All))
-       /\ PrintT(<<"GENERATED", Cardinality(All), "F1", Cardinality(F1), "F2", Cardinality(F2) + Cardinality(F2b) + Cardinality(F2c), "F3", Cardinality(F3), "F4", Cardinality(F4)>>)
+       /\ PrintT(<<"GENERATED", Cardinality(All), "F1", Cardinality(F1), "F2", Cardinality(F2) + Cardinality(F2b) + Cardinality(F2c) + Cardinality(F2d), "F3", Cardinality(F3), "F4", Cardinality(F4)>>)
 =============================================================================
